@@ -263,6 +263,10 @@ func run(c Case) (pbt.Outcome, error) {
 				if sawRecord {
 					passBetween = true
 				}
+			} else {
+				// a report pass over a reporter-less scope has nobody to deliver to and nothing to drop:
+				// the values stay in the snapshots (a reporter-less root with an interval runs such passes)
+				tally.VerifReportOnce(root)
 			}
 		case "stopwatch":
 			t0 := time.Now()
